@@ -297,6 +297,8 @@ def run(tier, seed, replay=None):
             gk = "none"; max_full = 0; local = "bicgstab" if i == 2 else "gmres"; prec = None; band = None
         if i in (10, 14):                     # ... and with the direct local solve (an interface of the right-hand side vanishes exactly: its norm must not be divided by), without / with preconditioner
             gk = "none"; max_full = 500; local = None; prec = None if i == 10 else "c"; band = None
+        if i in (3, 11, 19) and not pure_lap:  # engineered, every run: a guess whose relative residual is 0.3 sqrt(eps) (between eps and sqrt(eps): good, not good enough)
+            gk = "scaled-solution"; eps = min(eps, 1e-6)
         guess = None
         if gk != "none":
             guess = solverkit.rand_tt_float(rng, N, solverkit.ranks(rng, len(N), 3), torch.float64)
@@ -305,6 +307,9 @@ def run(tier, seed, replay=None):
             elif gk == "b": guess = b.clone()
             elif gk == "loose-solution":          # refinement: the solution of a looser solve (relative residual between eps and sqrt(eps)) as the guess of the tight one
                 try: guess = torchtt.solvers.amen_solve(A, b, eps=min(3e-2, 0.3 * math.sqrt(eps)), nswp=30, verbose=False, use_cpp=False)
+                except Exception: pass
+            elif gk == "scaled-solution":
+                try: guess = (1.0 + 0.3 * math.sqrt(eps)) * torchtt.solvers.amen_solve(A, b, eps=0.1 * eps, nswp=40, verbose=False, use_cpp=False)
                 except Exception: pass
             elif gk == "random*1e6": guess = 1e6 * guess
             elif gk == "random*1e-9": guess = 1e-9 * guess
